@@ -35,7 +35,7 @@
 
 enum { EV_SEC_BEGIN = 1, EV_SEC_END, EV_CALL_ENT, EV_CALL_RET, EV_CB_RUN, EV_CB_DONE, EV_BAR_ENT, EV_BAR_RET, EV_POLL_START, EV_POLL_TRUE };
 enum { CF_CB_WAITED = 0, CF_HELPER_ASLEEP_AT_ENQ = 1, CF_HELPER_FREED_WITH_CBS = 2, CF_BARRIER_PENDING = 3, CF_POLL_WHILE_ACTIVE = 4,
-       CF_CHAIN = 5, CF_PERCPU = 6, CF_PERTHREAD = 7, CF_BARRIER_MULTI = 8, CF_PASSIVE_DRAIN = 9, CF_BARRIER_CONCURRENT = 10, CF_POLL_WRAP = 11 };
+       CF_CHAIN = 5, CF_PERCPU = 6, CF_PERTHREAD = 7, CF_BARRIER_MULTI = 8, CF_PASSIVE_DRAIN = 9, CF_BARRIER_CONCURRENT = 10, CF_POLL_WRAP = 11, CF_BURST = 12 };
 
 struct obj { struct rcu_head head, head2; int id, chain; unsigned long val, chk; };
 
@@ -144,6 +144,42 @@ static void do_callrcu(int k, int chain)
 	call_retd(id);
 }
 
+/* burst n: n small callbacks queued back to back by one thread (all but the first as one scheduling step), so that a helper's batch crosses the sizes
+ * at which an implementation might chunk, cap or index it. Tracked by counters and one flag byte per callback, not by the per-id tables. */
+#define MAXFILL 20000
+struct filler { struct rcu_head head; int idx; int ran; };
+static struct filler *fillers; static unsigned char fill_runs[MAXFILL];
+static int fill_queued, fill_done;
+static NS void fill_run(struct filler *f)
+{
+	if (f->idx < 0 || f->idx >= MAXFILL || f != &fillers[f->idx]) ds_fail("burst callback invoked with an rcu_head that was never passed to call_rcu() (%p)", (void *)f);
+	if (++fill_runs[f->idx] > 1) ds_fail("burst callback %d invoked %d times", f->idx, fill_runs[f->idx]);
+	fill_done++; outstanding--;
+}
+static void cb_fill(struct rcu_head *h)
+{
+	struct filler *f = caa_container_of(h, struct filler, head);
+	uatomic_store(&f->ran, 1);	/* a visible store: the engine's no-progress detector must see the helper working through the batch */
+	fill_run(f);
+}
+static NS struct filler *fill_new(void) { if (fill_queued >= MAXFILL) ds_bad_case("too many burst callbacks"); struct filler *f = &fillers[fill_queued]; f->idx = fill_queued; return f; }
+static NS void fill_sent(void) { fill_queued++; outstanding++; }
+static NS void fill_alloc(void) { if (!fillers) { fillers = calloc(MAXFILL, sizeof *fillers); } }
+static void do_burst(long n)
+{
+	fill_alloc();
+	ds_flag(CF_BURST);
+	for (long k = 0; k < n; k++) {
+		if (k == 1) ds_bulk(1);
+		struct filler *f = fill_new();
+		F(call_rcu)(&f->head, cb_fill);
+		fill_sent();
+	}
+	ds_bulk(0);
+}
+static NS int fill_snapshot(void) { return fill_queued; }
+static NS void fill_check(int snap) { if (fill_done < snap) ds_fail("rcu_barrier() returned but only %d of the %d burst callbacks whose call_rcu() had returned before it was called have run", fill_done, snap); }
+
 struct barsnap { int ids[MAXID]; int n; };
 static NS void bar_ent(struct barsnap *s)
 {
@@ -170,8 +206,10 @@ static void do_barrier(void)
 	if (was) sec_end();
 #endif
 	bar_ent(&s);
+	int fsnap = fill_snapshot();
 	F(barrier)();
 	bar_ret(&s);
+	fill_check(fsnap);
 #ifdef FL_QSBR
 	if (was) sec_begin();
 #endif
@@ -194,11 +232,11 @@ static int do_poll(int h)
 }
 
 enum { OP_LOCK, OP_UNLOCK, OP_READOBJ, OP_CALLRCU, OP_BARRIER, OP_MKTHR, OP_RMTHR, OP_SPOLL, OP_POLL, OP_POLLWAIT, OP_YIELD,
-       OP_MKCPU, OP_RMCPU, OP_SETCPU, OP_UNSETCPU, OP_BAD };
+       OP_MKCPU, OP_RMCPU, OP_SETCPU, OP_UNSETCPU, OP_BURST, OP_BAD };
 static NS int fetch(int t, int i, long *a0, long *a1)
 {
 	static const char *names[] = { "lock", "unlock", "readobj", "callrcu", "barrier", "mkthr", "rmthr", "spoll", "poll", "pollwait", "yield",
-		"mkcpu", "rmcpu", "setcpu", "unsetcpu" };
+		"mkcpu", "rmcpu", "setcpu", "unsetcpu", "burst" };
 	const struct ds_op *o = ds_op(t, i);
 	*a0 = o->a[0]; *a1 = o->a[1];
 	for (int k = 0; k < OP_BAD; k++) if (!strcmp(o->name, names[k])) return k;
@@ -236,6 +274,7 @@ static void run_program(int t, int unreg)
 		case OP_READOBJ: do_readobj((int)a0); break;
 		case OP_CALLRCU: do_callrcu((int)a0, (int)a1); break;
 		case OP_BARRIER: do_barrier(); break;
+		case OP_BURST: do_burst(a0); break;
 		case OP_MKTHR: {
 			struct call_rcu_data *crd = F(create_call_rcu_data)(a0 ? URCU_CALL_RCU_RT : 0, -1);
 			if (!crd) ds_fail("create_call_rcu_data failed");
@@ -293,6 +332,7 @@ static void *thread_main(void *arg) { run_program((int)(long)arg, 1); return NUL
 static NS void final_oracles(void)
 {
 	/* exactly once */
+	if (fill_done != fill_queued) ds_fail("%d burst callbacks were passed to call_rcu() but %d had run by the end of the scenario", fill_queued, fill_done);
 	for (int id = 1; id < MAXID; id++) {
 		if (call_ret[id] && cb_count[id] != 1) ds_fail("callback %d passed to call_rcu() was invoked %d times by the end of the scenario", id, cb_count[id]);
 	}
